@@ -62,6 +62,9 @@ def producers(env):
     P.append(dict(text='(DATE(2020,1,1)+COMPLEX(1,2))', code=None, kind='operator-python'))
     P.append(dict(text='(COMPLEX(1,2)*"1/2/2020")', code=None, kind='operator-python'))
     P.append(dict(text='(DATE(2020,1,1)-COMPLEX(1,2))', code=None, kind='operator-python'))
+    # an error inside a one-item array or one-cell range under a comparison is that error (the array is its item)
+    P.append(dict(text='({1/0}=1)', code='#DIV/0!', kind='operator-python'))
+    P.append(dict(text='({NA()}<2)', code='#N/A', kind='operator-python'))
     # a percent literal beyond the largest number: an error value like the quotient it is (not an abort of the formula)
     P.append(dict(text='(1' + '0' * 311 + '%)', code=None, kind='operator-python'))
     for i, c in enumerate(CODES8):
@@ -89,7 +92,7 @@ def producers(env):
     return P
 
 
-NPRODUCERS = 102
+NPRODUCERS = 104
 
 
 LITERALS = ['#NULL!', '#DIV/0!', '#VALUE!', '#REF!', '#NAME?', '#NUM!', '#N/A', '#ERROR!', '#GETTING_DATA']
